@@ -73,6 +73,10 @@ def resStr : Except SelErr (List SelOk) → String
   | .error .outOfRange => "err=range"
   | .error .unsupported => "err=unsupported"
 
+def resStrNoLat : Except SelErr (List SelOk) → String
+  | .ok l => "ok " ++ ",".intercalate (l.map fun r => s!"{r.d}:{r.sel}")
+  | e => resStr e
+
 def parseNetType? (l4 ip dns dom : String) : Option NetType := do
   let udp ← (if l4 = "u" then some true else if l4 = "t" then some false else none)
   let ip6 ← (if ip = "6" then some true else if ip = "4" then some false else none)
@@ -124,7 +128,7 @@ def handle (w : World) (line : String) : World × String :=
     match w.g, parseNetType? l4 ip dns dom, parseExcl? excl with
     | some g, some nt, some ex =>
       if op = "sel" then (w, resStr (selectAll g nt (strict = "1") ex))
-      else if op = "choose" then (w, resStr (chooseSelectAll g nt (strict = "1") ex))
+      else if op = "choose" then (w, resStrNoLat (chooseSelectAll g nt (strict = "1") ex))
       else (w, "bad-op")
     | _, _, _ => (w, "bad-op")
   | ["rand", t, excl] =>
